@@ -1,11 +1,15 @@
 """C15 — file caches stay consistent under concurrent use.
 
-Program: the real FileCache.get / get_or_compute and the save_value / load_value pairs, read from /repo's cache.py on
-every run and turned into generators by an AST pass (a scheduling point before every statement that touches the shared
-environment: lock acquire/release, exists, open, close, load, dump, computer(); `with lock:` becomes a try-acquire
-loop; statements without environment calls are thread-local and commute).  The schedule -- which enabled thread moves
-next -- is a sequence of symbolic choices, as is what a reader overlapping a writer sees of the file (any of three
-prefixes).  Every schedule is explored.
+Program: every method of FileCache and its subclasses, read from /repo's cache.py on every run and turned into
+generators by an AST pass: before every statement that touches the shared environment a `yield` announces what the
+statement is about to do (lock acquire / release, read of the entry's file, truncate / write / publish, directory
+test / creation, the caller's own computation); `with <lock>:` becomes announce-acquire-try/finally-announce-release.
+The schedule -- which enabled caller performs its announced operation next -- is a sequence of symbolic choices, as is
+what a reader overlapping a writer sees of the file (any of three prefixes).
+Reduction: operations that touch nothing shared run together with the operation before them, and of all schedules
+that differ only in the order of adjacent commuting operations (two reads; a lock operation and a file operation;
+directory and file operations) one representative is explored.  `selfcheck` cases compare, on configurations small
+enough, the set of outcomes of the reduced exploration with that of the exploration of every interleaving.
 """
 import ast
 import os
@@ -17,80 +21,145 @@ PROPERTY = 'C15'
 FUNCTIONS = ['taskchain.cache.FileCache.get', 'taskchain.cache.FileCache.get_or_compute', 'taskchain.cache.JsonCache',
              'taskchain.cache.DataFrameCache']
 EXPLANATION = ('Generator forms of the real cache methods (regenerated from cache.py) run under a scheduler whose '
-               'choices are bounded symbolic integers: every interleaving of 2 (thorough 3) callers over lock, '
-               'existence check, load, compute, truncate, write is explored, with the file content a concurrent '
-               'reader sees chosen among empty / half / all-but-last-byte. Asserted on every schedule: each call '
-               'returns a completely computed value for the key (or NO_VALUE for get), no call fails because of the '
-               'other, the entry is complete at quiescence, a call starting after another returned does not compute '
-               'unless forced, and some thread is always enabled.')
+               'choices are bounded symbolic integers: every interleaving -- up to reordering of commuting '
+               'operations -- of 2 (thorough 3) callers over lock, existence check, load, compute, truncate, write, '
+               'directory creation is explored, with the file content a concurrent reader sees chosen among empty / '
+               'half / all-but-last-byte. Asserted on every schedule: each call returns a completely computed value '
+               'for the key; get returns NO_VALUE only if no complete entry had been stored before it started; no '
+               'call fails because of the other; the entry is complete at quiescence; a call starting after a '
+               'complete entry was stored (pre-state or a writer that has returned) does not compute unless it is '
+               'itself forced; some caller is always enabled.')
 ASSUMPTIONS = ['filelock.FileLock modelled as a mutex per lock file (re-entrant for every thread when constructed with '
                'thread_local=False, as documented); threads and processes are not distinguished',
-               'a buffered write becomes visible at close; a reader between truncate and close sees a prefix',
+               'a buffered write becomes visible at close; a reader between truncate and close sees a prefix; '
+               'DataFrame.to_pickle opens, writes and closes in three steps',
                'loading a truncated file raises what the real library raises (ValueError for JSON, EOFError / '
-               'UnpicklingError for pickles)']
+               'UnpicklingError for pickles)',
+               'commutation used by the reduction: reads commute with reads, lock operations with file and directory '
+               'operations, directory operations with file operations; everything else is ordered both ways']
 OUTSIDE = ['more than 3 concurrent callers', 'OS-level behaviour of filelock and of partial page writes',
-           'replay uses the same generator forms (no real threads)']
+           'lock timeouts (time is not modelled)', 'NumpyArrayCache payloads (same code path as the other two)',
+           'replay uses the same generator forms (no real threads); seeded/reverts/d365a5e.demo.py shows one '
+           'counterexample schedule with real threads on the real library']
 REACH = ['returns-completed-value', 'quiescent-entry-complete', 'late-caller-does-not-recompute']
 
-GEN_FUNCS = {'get', 'get_or_compute', 'save_value', 'load_value', 'filepath'}
-ENV_CALLS = {'exists', 'mkdir', 'open', 'load_value', 'save_value', 'dump', 'load', 'to_pickle', 'read_pickle', 'save'}
+GEN_FUNCS = set()      # filled per run: every plain method of FileCache and its subclasses in cache.py
+NOT_GEN = {'subcache', 'extension'}
+
+
+READS = {'exists', 'load', 'read_pickle'}
+WRITES = {'dump', 'to_pickle', 'save'}
 
 
 class Gen(ast.NodeTransformer):
-    def __init__(self):
+    """Generator forms: before every statement that touches the shared environment a `yield ('pt', kind)` announces
+    what the statement is about to do -- kind 'r' (reads the entry's file), 'w' (truncates / publishes / writes it),
+    'd' (creates or tests the entry's directory), 'l' (lock), 'c' (the caller's own computation) or 'n' (nothing
+    shared: entering save_value / load_value); `with lock:` becomes `yield ('acq', lock)`, acquire, try/finally with
+    `yield ('pt', 'l')` before the release."""
+
+    def __init__(self, tree):
         self.infn = False
+        self.incls = False
+        # the cache classes: FileCache and whatever derives from it (transitively) in this module
+        fam = {'FileCache'}
+        changed = True
+        while changed:
+            changed = False
+            for n in tree.body:
+                if isinstance(n, ast.ClassDef) and n.name not in fam and any(isinstance(b, ast.Name) and b.id in fam for b in n.bases):
+                    fam.add(n.name)
+                    changed = True
+        self.family = fam
+        GEN_FUNCS.clear()
+        for n in tree.body:
+            if isinstance(n, ast.ClassDef) and n.name in fam:
+                for f in n.body:
+                    if isinstance(f, ast.FunctionDef) and not f.name.startswith('__') and f.name not in NOT_GEN \
+                            and not f.decorator_list:
+                        GEN_FUNCS.add(f.name)
+
+    def visit_ClassDef(self, node):
+        if node.name not in self.family:
+            return node
+        self.incls = True
+        self.generic_visit(node)
+        self.incls = False
+        return node
 
     def visit_FunctionDef(self, node):
-        if node.name not in GEN_FUNCS or self.infn:
+        if not self.incls or node.name not in GEN_FUNCS or self.infn:
             return node
         self.infn = True
         self.fn = node.name
-        node.body = self.block(node.body)
+        node.body = [ast.Expr(ast.Yield(ast.Tuple([ast.Constant('pt'), ast.Constant('n')], ast.Load())))] + self.block(node.body)
         self.infn = False
         return node
 
-    def is_env(self, s):
+    @staticmethod
+    def is_lock(expr):
+        return (isinstance(expr, ast.Name) and 'lock' in expr.id.lower()) or \
+            (isinstance(expr, ast.Call) and isinstance(expr.func, ast.Name) and 'lock' in expr.func.id.lower())
+
+    def kind(self, s):
+        """None: the statement touches nothing shared."""
         hdr = s
         if isinstance(s, ast.If):
             hdr = s.test
         elif isinstance(s, ast.With):
-            return True
+            hdr = s.items[0].context_expr
         elif isinstance(s, ast.Try):
-            return False
+            return None
+        kinds = set()
         for n in ast.walk(hdr):
             if isinstance(n, ast.Call):
                 f = n.func
-                if isinstance(f, ast.Attribute) and f.attr in ENV_CALLS:
-                    return True
                 if isinstance(f, ast.Name) and f.id == 'computer':
-                    return True
-        return False
+                    kinds.add('c')
+                if not isinstance(f, ast.Attribute):
+                    continue
+                if f.attr == 'open':
+                    modes = [a.value for a in list(n.args) + [k.value for k in n.keywords]
+                             if isinstance(a, ast.Constant) and isinstance(a.value, str) and len(a.value) <= 3]
+                    kinds.add('w' if any(c in m for m in modes for c in 'wax+') else 'r')
+                elif f.attr in READS:
+                    kinds.add('r')
+                elif f.attr in WRITES:
+                    kinds.add('w')
+                elif f.attr == 'mkdir':
+                    kinds.add('d')
+                elif f.attr in GEN_FUNCS and isinstance(f.value, ast.Name) and f.value.id == 'self':
+                    kinds.add('n')
+        for k in 'wrdcn':
+            if k in kinds:
+                return 'd' if (self.fn == 'filepath' and k in 'wr') else k
+        return None
 
     def block(self, stmts):
         out = []
         for s in stmts:
-            env = self.is_env(s)
-            lock_with = isinstance(s, ast.With) and isinstance(s.items[0].context_expr, ast.Name) \
-                and s.items[0].context_expr.id == 'lock'
+            k = self.kind(s)
+            lock_with = isinstance(s, ast.With) and self.is_lock(s.items[0].context_expr)
             plain_with = isinstance(s, ast.With) and not lock_with
             s2 = self.stmt(s)
-            if env and not lock_with:
-                # (scheduling points inside filepath() only matter while the entry's directory does not exist yet)
-                out.append(ast.Expr(ast.Yield(ast.Constant('pt-dir' if self.fn == 'filepath' else 'pt'))))
-            if plain_with:
-                s2.body.append(ast.Expr(ast.Yield(ast.Constant('pre-close'))))
+            if k is not None and not lock_with:
+                out.append(ast.Expr(ast.Yield(ast.Tuple([ast.Constant('pt'), ast.Constant(k)], ast.Load()))))
+            if plain_with and k == 'w':
+                # the buffered data reaches the file when the handle is closed
+                s2.body.append(ast.Expr(ast.Yield(ast.Tuple([ast.Constant('pt'), ast.Constant('w')], ast.Load()))))
             out.extend(s2 if isinstance(s2, list) else [s2])
         return out
 
     def stmt(self, s):
         if isinstance(s, ast.With):
             item = s.items[0]
-            if isinstance(item.context_expr, ast.Name) and item.context_expr.id == 'lock':
+            if self.is_lock(item.context_expr):
                 body = self.block(s.body)
-                acq = ast.parse("while not lock.try_acquire():\n    yield ('blocked', lock)").body[0]
+                pre = ast.Assign([ast.Name('_lk', ast.Store())], item.context_expr)
+                acq = ast.parse("yield ('acq', _lk)\nwhile not _lk.try_acquire():\n    yield ('acq', _lk)").body
                 tr = ast.Try(body=body, handlers=[], orelse=[],
-                             finalbody=[ast.Expr(ast.Yield(ast.Constant('pre-release'))), ast.parse('lock.release()').body[0]])
-                return [acq, tr]
+                             finalbody=ast.parse("yield ('pt', 'l')\n_lk.release()").body)
+                return [pre] + acq + [tr]
             s.body = self.block(s.body)
             return self.fix(s)
         if isinstance(s, ast.Try):
@@ -110,9 +179,11 @@ class Gen(ast.NodeTransformer):
         class C(ast.NodeTransformer):
             def visit_Call(self, n):
                 self.generic_visit(n)
-                if isinstance(n.func, ast.Attribute) and n.func.attr in ('save_value', 'load_value', 'filepath') and \
+                if isinstance(n.func, ast.Attribute) and n.func.attr in GEN_FUNCS and \
                         isinstance(n.func.value, ast.Name) and n.func.value.id == 'self':
                     return ast.YieldFrom(n)
+                if isinstance(n.func, ast.Attribute) and n.func.attr == 'to_pickle':
+                    return ast.YieldFrom(n)           # (the model's to_pickle writes in steps, like the real one)
                 return n
 
             def visit_FunctionDef(self, n):
@@ -126,6 +197,13 @@ class Gen(ast.NodeTransformer):
         if isinstance(s, ast.With):
             return s
         return C().visit(s)
+
+
+def dependent(a, b):
+    """two announced operations of different callers do not commute"""
+    if a in 'rw' and b in 'rw':
+        return 'w' in (a, b)
+    return a == b and a in 'ld'
 
 
 # ---------------------------------------------------------------- model environment
@@ -147,6 +225,8 @@ class MFile:
 
 
 _CODE = {}
+OUTCOME_SINK = None
+REDUCE = [True]      # False: every announced point is a scheduling point and nothing is pruned (selfcheck only)
 
 
 def parse(s, tag):
@@ -174,7 +254,7 @@ def build_module(W):
     if 'code' not in _CODE:
         src_path = os.path.join(os.environ.get('SX_REPO_SRC', '/repo/src'), 'taskchain', 'cache.py')
         tree = ast.parse(open(src_path).read())
-        tree = Gen().visit(tree)
+        tree = Gen(tree).visit(tree)
         ast.fix_missing_locations(tree)
         _CODE['code'] = compile(tree, 'taskchain/cache.py<generators>', 'exec')     # once per process and run
     mod = types.ModuleType('taskchain_cache_generators')
@@ -183,6 +263,9 @@ def build_module(W):
         def __init__(self, path, mode=None, thread_local=True, is_singleton=False, **kw):
             self.l = W.locks.setdefault(path, {'owner': None, 'count': 0})
             self.shared = (thread_local is False)          # one re-entrant lock object for every thread
+
+        def free(self):
+            return self.shared or self.l['owner'] is None
 
         def try_acquire(self):
             if self.shared:
@@ -301,8 +384,12 @@ def build_module(W):
             self.v = v
 
         def to_pickle(self, path):
-            with path.open('wb') as f:
-                f.write('P' + repr(self.v) + '$')
+            yield ('pt', 'w')
+            f = path.open('wb')
+            yield ('pt', 'w')
+            f.write('P' + repr(self.v) + '$')
+            yield ('pt', 'w')
+            f.__exit__(None, None, None)
 
     exec(_CODE['code'], mod.__dict__)
     mod.Path = MPath
@@ -315,7 +402,9 @@ def build_module(W):
 
 
 def bounds(tier):
-    return {'callers': '2' if tier == 'quick' else '2 (both caches, all ordered pairs) and 3 (JSON cache, all multisets with at least one writer and one get)',
+    return {'callers': '2 (all ordered pairs of operations)' if tier == 'quick' else '2 (all ordered pairs) and 3 (all multisets of operations), both caches, every pre-state',
+            'schedules': 'all, up to reordering of adjacent commuting operations',
+            'selfcheck_configurations': 2 if tier == 'quick' else len(SELFCHECK),
             'caches': ['JsonCache', 'DataFrameCache'],
             'pre_states': ['absent', 'intact', 'empty', 'torn', "nodir (the entry's directory does not exist yet)"], 'operations': ['get', 'get_or_compute', 'get_or_compute(force)'],
             'reader_views_of_a_file_being_written': 3}
@@ -328,12 +417,18 @@ def cases(tier):
         for pre in ('absent', 'intact', 'empty', 'torn', 'nodir'):
             for ops in itertools.product(range(3), repeat=2):
                 out.append((ctype, pre, ops))
+    for c in (SELFCHECK[4:] if tier == 'quick' else SELFCHECK):
+        out.append(('selfcheck', c))
     if tier == 'thorough':
-        # three callers: the JSON cache, every multiset of operations with at least one writer
+        # three callers: every multiset of operations
+        for ctype in ('json', 'pd'):
+            for pre in ('absent', 'intact', 'empty', 'torn', 'nodir'):
+                for ops in itertools.combinations_with_replacement(range(3), 3):
+                    out.append((ctype, pre, ops))
+        # four callers on the JSON cache
         for pre in ('absent', 'intact', 'torn'):
-            for ops in itertools.combinations_with_replacement(range(3), 3):
-                if any(ops) and 0 in ops:        # (three writers without a reader: > 10^6 schedules, not explored)
-                    out.append(('json', pre, ops))
+            for ops in itertools.combinations_with_replacement(range(3), 4):
+                out.append(('json', pre, ops))
     return out
 
 
@@ -368,14 +463,41 @@ def make_harness(case, tier):
                 gens[t] = cache.get('k')
             else:
                 gens[t] = cache.get_or_compute('k', computer_for(t), force=(op == 2))
-        results, blocked = {}, {}
+        results, nxt = {}, {}
         started, finished_before_start = {}, {}
         order_finished = []
         trace = []
-        step = 0
         info = {'cache': ctype, 'pre': pre, 'ops': [['get', 'get_or_compute', 'forced'][o] for o in ops]}
+
+        def kind_of(y):
+            if y[0] == 'acq':
+                return 'l'
+            k = y[1]
+            if k == 'd' and pre != 'nodir':
+                return 'n'          # the entry's directory exists: creating / testing it again changes nothing
+            return k
+
+        def advance(t):
+            """one announced operation of caller t, then everything that follows and touches nothing shared"""
+            W.cur = t
+            try:
+                while True:
+                    y = gens[t].send(None)
+                    if not REDUCE[0] or kind_of(y) not in 'nc':
+                        nxt[t] = y
+                        return
+            except StopIteration as s:
+                results[t] = ('ret', s.value)
+            except Exception as e:
+                results[t] = ('exc', f'{type(e).__name__}: {e}'[:100])
+            order_finished.append(t)
+            del gens[t]
+            nxt.pop(t, None)
+        for t in sorted(gens):
+            advance(t)               # up to the first shared operation (nothing shared happens before it)
+        step, last = 0, None
         while gens:
-            enabled = [t for t in sorted(gens) if not (t in blocked and blocked[t].l['owner'] is not None)]
+            enabled = [t for t in sorted(gens) if not (nxt[t][0] == 'acq' and not nxt[t][1].free())]
             if not enabled:
                 ctx.check_concrete(False, 'no-deadlock', dict(info, trace=trace))
                 return
@@ -383,39 +505,44 @@ def make_harness(case, tier):
             if step > 200:
                 ctx.check_concrete(False, 'terminates', dict(info, trace=trace[:60]))
                 return
-            t = enabled[ctx.choice(f's{step}', len(enabled))] if len(enabled) > 1 else enabled[0]
+            # one representative per class of schedules that differ only in the order of commuting operations: a
+            # caller with a smaller index does not move directly after an operation it commutes with (it went first)
+            cands = [t for t in enabled if not (REDUCE[0] and last is not None and t < last[0]
+                                                and not dependent(kind_of(nxt[t]), last[1]))]
+            if not cands:
+                for g in gens.values():          # (not a representative: its reordered twin is explored)
+                    try:
+                        g.close()
+                    except RuntimeError:
+                        pass
+                return
+            t = cands[ctx.choice(f's{step}', len(cands))] if len(cands) > 1 else cands[0]
             trace.append(t)
-            if t not in started:
+            k = kind_of(nxt[t])
+            if t not in started and k in 'lrw':
                 started[t] = True
                 finished_before_start[t] = list(order_finished)
-            W.cur = t
-            try:
-                y = gens[t].send(None)
-                while y == 'pt-dir' and pre != 'nodir':
-                    y = gens[t].send(None)
-                if isinstance(y, tuple) and y[0] == 'blocked':
-                    blocked[t] = y[1]
-                else:
-                    blocked.pop(t, None)
-            except StopIteration as s:
-                results[t] = ('ret', s.value)
-                order_finished.append(t)
-                del gens[t]
-            except Exception as e:
-                results[t] = ('exc', f'{type(e).__name__}: {e}'[:100])
-                order_finished.append(t)
-                del gens[t]
+            last = (t, k)
+            advance(t)
         info = dict(info, schedule=''.join(map(str, trace)))
+        if OUTCOME_SINK is not None:      # (selftest: the reduced exploration reaches the outcomes of the full one)
+            OUTCOME_SINK.add((tuple(sorted((t, r[0], repr(un(r[1])) if r[0] == 'ret' else r[1]) for t, r in results.items())),
+                              W.files[fp].content if fp in W.files else None, tuple(sorted(computed)),
+                              tuple(sorted((t, tuple(sorted(v))) for t, v in finished_before_start.items()))))
         valid = set(completed) | ({'old'} if pre == 'intact' else set())
+        # a complete entry was stored before caller t did anything shared: the pre-state, or a writer that had returned
+        entry_before = {t: pre == 'intact' or any(ops[u] > 0 for u in finished_before_start.get(t, []))
+                        for t in range(len(ops))}
         for t, op in enumerate(ops):
             kind, v = results[t]
             if op == 0:
-                ok = kind == 'ret' and (v is mod.NO_VALUE or un(v) in valid)
+                # get may miss only while no complete entry has been stored yet -- not because somebody is rewriting it
+                ok = kind == 'ret' and ((v is mod.NO_VALUE and not entry_before[t]) or (v is not mod.NO_VALUE and un(v) in valid))
             else:
-                ok = kind == 'ret' and un(v) in valid
-            ctx.check_concrete(ok, 'returns-completed-value', dict(info, caller=t, got=repr((kind, un(v) if kind == 'ret' else v))[:120]))
+                ok = kind == 'ret' and v is not mod.NO_VALUE and un(v) in valid
+            ctx.check_concrete(ok, 'returns-completed-value', dict(info, caller=t, entry_stored_before_call=entry_before[t],
+                                                                   got=repr((kind, un(v) if kind == 'ret' else v))[:120]))
         content = W.files[fp].content if fp in W.files else None
-        wrote = any(o > 0 for o in ops) and (pre != 'intact' or any(o == 2 for o in ops))
         if content is not None and (computed or pre == 'intact'):
             try:
                 parse(content, 'J' if ctype == 'json' else 'P')
@@ -423,20 +550,59 @@ def make_harness(case, tier):
             except ValueError:
                 good = False
             ctx.check_concrete(good, 'quiescent-entry-complete', dict(info, content=content[:60]))
-        # a call that started after another call had returned does not compute unless forced
+        # a call that started after another call had returned does not compute unless it is itself forced
         for t, op in enumerate(ops):
-            if op == 1 and any(c.startswith(f'v{t}') for c in computed):
-                earlier = [u for u in finished_before_start.get(t, []) if ops[u] > 0 or pre == 'intact']
-                stored_before = any(ops[u] > 0 for u in finished_before_start.get(t, [])) or \
-                    (pre == 'intact' and not any(ops[u] == 2 for u in range(len(ops)) if u != t))
-                still_writing = any(ops[u] == 2 and u not in finished_before_start.get(t, []) for u in range(len(ops)) if u != t)
-                if stored_before and not still_writing:
-                    ctx.check_concrete(False, 'late-caller-does-not-recompute', dict(info, caller=t))
+            if op == 1 and any(c.startswith(f'v{t}') for c in computed) and entry_before[t]:
+                ctx.check_concrete(False, 'late-caller-does-not-recompute', dict(info, caller=t))
         ctx.reach('late-caller-does-not-recompute')
     return harness
 
 
+# (configurations whose full exploration finishes within about a minute; with a damaged or rewritten entry the retries
+# of the readers put the full exploration out of reach -- that is what the reduction is for)
+SELFCHECK_BUDGET_S = 200
+SELFCHECK = [('json', 'absent', (1, 1)), ('json', 'absent', (1, 2)), ('pd', 'absent', (1, 1)), ('json', 'nodir', (1, 1)),
+             ('json', 'absent', (0, 1)), ('pd', 'nodir', (0, 2))]
+
+
+def selfcheck(case):
+    """the reduced exploration reaches exactly the outcomes (returned values, stored entry, computations, who had
+    returned before whom started) of the exploration of every interleaving, on configurations small enough for both"""
+    global OUTCOME_SINK
+    sets = []
+    stats = []
+    for reduce_ in (False, True):
+        REDUCE[0] = reduce_
+        OUTCOME_SINK = set()
+        try:
+            ctx = explore.explore(make_harness(case[1], 'quick'), max_paths=3000000, time_budget_s=SELFCHECK_BUDGET_S)
+        finally:
+            REDUCE[0] = True
+        sets.append(OUTCOME_SINK)
+        stats.append(ctx)
+        OUTCOME_SINK = None
+    full, red = sets
+    complete = all(c.exhausted and not c.violations for c in stats)
+
+    def h(ctx):
+        if not complete:
+            # the exploration of every interleaving did not finish in its budget (or found violations): nothing to
+            # compare; this is a test of the machinery, the property is decided by the other cases
+            ctx.reach('reduction-selfcheck-skipped')
+            return
+        ctx.check_concrete(full == red, 'reduction-selfcheck',
+                           {'case': repr(case[1]), 'outcomes_full': len(full), 'outcomes_reduced': len(red),
+                            'both_explorations_finished': complete,
+                            'only_full': repr(sorted(full - red)[:2]), 'only_reduced': repr(sorted(red - full)[:2])})
+    c2 = explore.explore(h, max_paths=2)
+    r2 = driver.result_from_ctx(c2)
+    r2['entered_extra'] = []
+    return r2
+
+
 def run_case(case, tier):
+    if case[0] == 'selfcheck':
+        return selfcheck(case)
     ctx = explore.explore(make_harness(case, tier), max_paths=(200000 if tier == 'quick' else 8000000), time_budget_s=(400 if tier == 'quick' else 3600))
     r = driver.result_from_ctx(ctx)
     # the functions of cache.py that were turned into generators and executed (this check does not use the import hook)
